@@ -2,7 +2,7 @@
 EXTENDS Router
 S(n, sc) == [scheme |-> n, scopes |-> sc]
 P(n, in, w, t, r) == [name |-> n, in |-> in, wire |-> w, type |-> t, required |-> r, validate |-> ""]
-H(alts, ps, rv) == [alts |-> alts, params |-> ps, returnsValue |-> rv]
+H(alts, ps, rv) == [alts |-> alts, params |-> ps, returnsValue |-> rv, respCheck |-> IF rv /\ Len(ps) = 2 THEN "invalid" ELSE "valid"]
 AltChoices == { <<>>, <<S("s1", <<>>)>>, <<S("s1", <<"r">>), S("s2", <<"w">>)>>, <<S("s2", <<>>), S("s2", <<"r">>), S("s1", <<>>)>> }
 ParamSeqs == { <<>>, <<P("a", "path", "a", "int", TRUE)>>, <<P("ctx", "ctx", "", "context.Context", FALSE), P("b", "query", "x-b", "*int", FALSE), P("c", "header", "X-C", "string", TRUE)>>,
                <<P("a", "path", "a", "string", TRUE), P("e", "body", "e", "p1.Item", TRUE)>>, <<P("d", "form", "d", "*bool", FALSE), P("b", "query", "b", "[]int", TRUE)>> }
